@@ -495,7 +495,25 @@ Section RoundTrip.
     destruct (f_autohash f); [|congruence].
     unfold Quote.single_line_hash_count in *.
     destruct (negb (existsb _ s)); [congruence|].
+    destruct (lead_qq (f_quote f) s); [congruence|].
     destruct (slhc_loop pr_tbl gr_tbl f (length s) s 1); congruence.
+  Qed.
+
+  (* a hash count is only chosen for texts that do not start with two quotes *)
+  Lemma eff_hash_no_lead : forall f s, public_form f -> eff_multiline f s = false ->
+    eff_hash f s <> 0%nat -> lead_qq (f_quote f) s = false.
+  Proof.
+    intros f s [Hh _] Hml Hne. unfold Quote.eff_hash in *. rewrite Hml in *.
+    destruct (f_autohash f); [|congruence].
+    unfold Quote.single_line_hash_count in *.
+    destruct (negb (existsb _ s)); [congruence|].
+    destruct (lead_qq (f_quote f) s); [congruence|reflexivity].
+  Qed.
+
+  Lemma lead2_lead_qq : forall q s, lead_qq q s = false -> lead2 q s = false.
+  Proof.
+    intros q s H. destruct s as [|a [|b r]]; try reflexivity. cbn [lead2 lead_qq] in *.
+    rewrite H. reflexivity.
   Qed.
 
   Lemma quote_hash_shape : forall f s, eff_multiline f s = false -> eff_hash f s <> 0%nat ->
@@ -506,10 +524,11 @@ Section RoundTrip.
   Qed.
 
   Theorem unquote_quote_hash : forall f s, public_form f -> is_bytes s ->
-    eff_multiline f s = false -> eff_hash f s <> 0%nat -> lead2 (f_quote f) s = false ->
+    eff_multiline f s = false -> eff_hash f s <> 0%nat ->
     unquote (quote f s) = Ok (expected f s).
   Proof.
-    intros f s Hpub Hb Hml Hne Hlead.
+    intros f s Hpub Hb Hml Hne.
+    pose proof (lead2_lead_qq _ _ (eff_hash_no_lead f s Hpub Hml Hne)) as Hlead.
     rewrite (quote_hash_shape f s Hml Hne).
     set (q := f_quote f) in *. set (hc := eff_hash f s) in *.
     pose proof (public_quote f Hpub) as Hq. fold q in Hq.
@@ -555,52 +574,26 @@ Section RoundTrip.
     f_equal. symmetry. apply sanitize_valid. eapply plain_valid. exact Hplain.
   Qed.
 
-  (* the class on which the tree under test does NOT round-trip *)
-  Theorem unquote_quote_hash_bad : forall f s, public_form f -> is_bytes s ->
-    eff_multiline f s = false -> eff_hash f s <> 0%nat -> lead2 (f_quote f) s = true ->
-    unquote (quote f s) = Err EMissingOpeningNewline.
+  (* the raw hash form never looks like a multiline opening: what follows the
+     opening quote does not start with two quote characters *)
+  Theorem hash_form_not_multiline_opening : forall f s, public_form f ->
+    eff_multiline f s = false -> eff_hash f s <> 0%nat ->
+    look3 (f_quote f) (s ++ f_quote f :: hashes (eff_hash f s)) = false /\ lead_qq (f_quote f) s = false.
   Proof.
-    intros f s Hpub Hb Hml Hne Hlead.
-    rewrite (quote_hash_shape f s Hml Hne).
-    set (q := f_quote f) in *. set (hc := eff_hash f s) in *.
-    pose proof (public_quote f Hpub) as Hq. fold q in Hq.
-    assert (Hqh : q <> ch_hash) by (unfold ch_hash, ch_dq, ch_sq in *; lia).
-    pose proof (eff_hash_autohash f s Hpub Hml Hne) as Hsl. fold hc in Hsl.
-    assert (Hplain : plain q hc (q :: hashes hc) s).
-    { apply (slhc_plain pr_tbl gr_tbl f (q :: hashes hc) Hqh (length s) s 1 hc (le_n _) Hsl). }
-    pose proof (plain_no_crnl _ _ _ _ Hplain) as Hn.
-    unfold Unquote.unquote, parse_quotes. cbv zeta.
-    rewrite count_prefix_hashes by exact Hqh. rewrite skipn_hashes.
-    replace ((q =? ch_dq) || (q =? ch_sq)) with true by lia.
-    destruct s as [|a [|b r]]; try discriminate.
-    cbn [lead2] in Hlead.
-    apply andb_prop in Hlead. destruct Hlead as [Hab Hc]. apply andb_prop in Hab.
-    destruct Hab as [Ha Hb']. apply N.eqb_eq in Ha, Hb'. subst a b.
-    destruct r as [|c r].
-    - cbn [app pq_kind]. rewrite !N.eqb_refl.
-      destruct (N.eqb_spec q ch_hash); [contradiction|]. cbn [andb negb].
-      replace (q =? ch_nl) with false by (unfold ch_nl, ch_dq, ch_sq in *; lia).
-      replace (q =? ch_cr) with false by (unfold ch_cr, ch_dq, ch_sq in *; lia).
-      reflexivity.
-    - cbn [app pq_kind]. rewrite !N.eqb_refl. rewrite Hc. cbn [andb].
-      inversion Hn as [|? ? _ Hn2]; subst. inversion Hn2 as [|? ? _ Hn3]; subst.
-      inversion Hn3 as [|? ? [Hc1 Hc2] _]; subst.
-      destruct (N.eqb_spec c ch_nl); [contradiction|]. destruct (N.eqb_spec c ch_cr); [contradiction|].
-      reflexivity.
+    intros f s Hpub Hml Hne.
+    pose proof (eff_hash_no_lead f s Hpub Hml Hne) as Hl. split; [|exact Hl].
+    pose proof (public_quote f Hpub) as Hq.
+    rewrite look3_lead2; [now apply lead2_lead_qq| |exact Hne].
+    unfold ch_hash, ch_dq, ch_sq in *. lia.
   Qed.
 
-  (* ================= all public forms ================= *)
-  (* the exact class of (form, text) pairs on which Quote followed by Unquote fails *)
-  Definition autohash_bad (f : form) (s : str) : Prop :=
-    eff_multiline f s = false /\ eff_hash f s <> 0%nat /\ lead2 (f_quote f) s = true.
-
-  Theorem unquote_quote_when : forall f s, public_form f -> is_bytes s -> ~ autohash_bad f s ->
+  (* ================= all public forms, every byte sequence ================= *)
+  Theorem unquote_quote_all : forall f s, public_form f -> is_bytes s ->
     unquote (quote f s) = Ok (expected f s).
   Proof.
-    intros f s Hpub Hb Hnb.
+    intros f s Hpub Hb.
     destruct (eff_multiline f s) eqn:Hml; [now apply unquote_quote_multi|].
     destruct (Nat.eq_dec (eff_hash f s) 0) as [H0|H0]; [now apply unquote_quote_single|].
-    destruct (lead2 (f_quote f) s) eqn:Hl; [|now apply unquote_quote_hash].
-    exfalso. apply Hnb. unfold autohash_bad. auto.
+    now apply unquote_quote_hash.
   Qed.
 End RoundTrip.
